@@ -606,7 +606,9 @@ Proof. intros H1 H2. destruct w; try discriminate H1; try congruence; reflexivit
 
 Section Inv.
   Variable d : qdialect.
-  Hypothesis Hd : dialect_ok d = true.
+  (** all the invariants need of the dialect record (the DML core runs these parsers under a dialect that
+      fails the other side conditions of [dialect_ok]) *)
+  Hypothesis HU0 : lvl (base d) K_UNKNOWN = 0.
   Variable keep : qtok -> bool.
   Hypothesis Hlit : forall t, keep t = true -> qlit t = true.
   (** [mode = true]: ordered equality of the content, for trees none of whose queries has both LIMIT and OFFSET;
@@ -954,7 +956,7 @@ Section Inv.
     destruct (ffuel F) eqn:Ff; [discriminate|].
     destruct (parse_expr (base d) (map fst (fv F))) as [[e r0]| | |] eqn:PE; cbn [bind]; try discriminate.
     destruct (fstop F && Nat.eqb (length r0) 0) eqn:G; [discriminate|]. intro H. inversion H; subst x r. clear H.
-    pose proof (pratt_invariant (base d) (d_U0 d Hd) _ _ _ PE) as (Hy & (_ & Hw & Hls) & _).
+    pose proof (pratt_invariant (base d) HU0 _ _ _ PE) as (Hy & (_ & Hw & Hls) & _).
     pose proof (parse_expr_shape (base d) _ _ _ PE) as (Hs & _).
     assert (Hn : (length (map fst (fv F)) - length r0 = length (yield e))%nat) by (rewrite Hy, app_length; lia).
     rewrite Hn.
@@ -2012,9 +2014,14 @@ Section Inv.
     - intros ts t r H. eapply twj_step_inv; eauto.
   Qed.
 
-  Theorem parse_query_inv fuel ts q r : parse_query d fuel ts = Ok (q, r) -> QI ts q r.
+  Theorem parse_query_inv_u0 fuel ts q r : parse_query d fuel ts = Ok (q, r) -> QI ts q r.
   Proof. apply (proj1 (parse_lvl_inv fuel)). Qed.
 End Inv.
+
+Theorem parse_query_inv d (Hd : dialect_ok d = true) keep (Hlit : forall t, keep t = true -> qlit t = true) mode sf canP
+  (HP : forall e, canP e = true -> canonical e = true /\ (negb sf || frag_ok (base d) (yield e)) = true) fuel ts q r :
+  parse_query d fuel ts = Ok (q, r) -> QI d keep mode sf canP ts q r.
+Proof. exact (parse_query_inv_u0 d (d_U0 d Hd) keep Hlit mode sf canP HP fuel ts q r). Qed.
 
 (** * The theorems *)
 Definition keep_none (_ : qtok) : bool := false.
